@@ -1,10 +1,13 @@
 /-
   C07 — try / catch / throw follow block structure.
 
-  Property theorems only. Helper lemmas: CelloProofs/Lemmas/ExnWalk.lean (the filter walk of exception_catch),
-  CelloProofs/Lemmas/ExnDomain.lean (object domain, catchPhase).
-  Model: Cello/Exn.lean (`run`: the macros + Exception.c + Tuple_Iter_Next; `eval`: structured-exception reference
-  semantics). Source-derived facts: CelloGen/Exn.lean (`catchConsumes`, `maxDepth`, macro texts, shape flags).
+  Property theorems only. Helper lemmas: CelloProofs/Lemmas/ExnWalk.lean (the filter walk of exception_catch: by index
+  now, the OLD foreach walk), CelloProofs/Lemmas/ExnDomain.lean (object domain, catchPhase), CelloProofs/Lemmas/ExnRefine.lean
+  (`Agrees`, `Safe`, `runNow`, the refinement and safety inductions for any filter walk).
+  Model: Cello/Exn.lean (`run`: the macros + Exception.c with the filter walked by index — fix a0ef2da; `runOld`: the
+  same machine with the foreach walk of the code before that fix; `runCfg`/`runNow`: the one the translator's flags
+  select; `eval`: structured-exception reference semantics). Source-derived facts: CelloGen/Exn.lean (`catchConsumes`,
+  `maxDepth`, macro texts, shape flags `catchWalksFilterByIndex` / `catchWalksFilterWithForeachEq` …).
 
   Domain of the refinement theorems (each part is an explicit, decidable hypothesis; what happens outside is modelled
   too and exhibited by the `…_refuted` theorems below):
@@ -12,117 +15,54 @@
       NULL (`inDomain`), the variable bound at the start is non-NULL. Built into the representation: exception
       objects are static or heap objects that outlive the jump (addresses), and `eq` on them is identity and cannot
       raise (the library's `…Error` Type objects, compared by name).
-    * filters: every catch filter lists pairwise distinct objects (`nodupFilters`) — finding KF-C07-filter-dup.
     * depth: the try-nesting fits into the jump-buffer array (`s.depth + nest p ≤ maxDepth`); beyond it the machine
-      aborts (`C07_overflow_aborts`), it never performs an undefined jump (`C07_no_undefined_jump`).
+      aborts (`C07_overflow_aborts`), it never performs an undefined jump and never hangs (`C07_no_undefined_jump`).
+  Catch filters are arbitrary lists: the hypothesis `nodupFilters` (finding KF-C07-filter-dup) is gone with fix a0ef2da;
+  it survives only in the theorems about the OLD machine (`C07_foreach_walk_…`).
 -/
 import Cello.Exn
 import CelloGen.Exn
 import CelloProofs.Lemmas.ExnWalk
 import CelloProofs.Lemmas.ExnDomain
+import CelloProofs.Lemmas.ExnRefine
 
 namespace Cello.Exn
 
-/-- What the machine must do from state `s`, given the reference outcome `ref` of the same program. -/
-def Agrees (s : St) (r : St × List Ev × Sig) (ref : List Ev × Option Nat) : Prop :=
-  match ref with
-  | (t0, none) => r.2.1 = t0 ∧ r.2.2 = .normal ∧ r.1.depth = s.depth ∧ r.1.active = false
-  | (t0, some e) => r.2.1 = t0 ∧ r.1.obj = e ∧ r.1.depth = s.depth ∧
-      r.2.2 = (if s.depth ≥ 1 then .jump (s.depth - 1) else .fatal)
-
-/-- **C07 (core).** For every program tree inside the object domain whose catch filters are duplicate-free, every
-    nesting bound, every non-NULL bound variable and every start state with no pending exception in which the
-    program's try-nesting fits into the jump-buffer array, the machine produces exactly the reference trace (which
-    statements ran, which handlers ran and with which bound object — throws from bodies, from called functions, from
-    handlers, rethrows of the bound object), restores the depth, and ends `normal` iff the reference ends without
-    exception; otherwise it jumps to the innermost enclosing buffer — the one of the nearest enclosing try block — or,
-    at depth 0, terminates the program (`fatal`). It never aborts, never hangs and never performs an undefined jump.
+/-- **C07 (core).** For every program tree inside the object domain — catch filters are arbitrary lists, an object may
+    be named any number of times —, every nesting bound, every non-NULL bound variable and every start state with no
+    pending exception in which the program's try-nesting fits into the jump-buffer array, the machine produces exactly
+    the reference trace (which statements ran, which handlers ran and with which bound object — throws from bodies,
+    from called functions, from handlers, rethrows of the bound object), restores the depth, and ends `normal` iff the
+    reference ends without exception; otherwise it jumps to the innermost enclosing buffer — the one of the nearest
+    enclosing try block — or, at depth 0, terminates the program (`fatal`). It never aborts, never hangs and never
+    performs an undefined jump.
     The hypotheses are met by every state the machine itself produces at a statement boundary (conclusion `Agrees`
-    gives `active = false` and the depth back), so the theorem composes over histories (`C07_sequence_history`). -/
+    gives `active = false` and the depth back), so the theorem composes over histories (`C07_sequence_history`).
+    (Induction: `runWith_refines`, for any filter walk that decides by membership; `catchDecision_membership`.) -/
 theorem C07_machine_refines_reference (maxDepth : Nat) (p : Prog) :
     ∀ (x : Nat) (s : St), s.active = false → s.depth + nest p ≤ maxDepth →
-      x ≠ 0 → inDomain p = true → nodupFilters p = true →
+      x ≠ 0 → inDomain p = true →
       Agrees s (run true maxDepth p x s) (eval p x) := by
-  induction p with
-  | stmt t => intro x s h _ _ _ _; simp [run, eval, Agrees, h]
-  | throw e => intro x s h _ _ _ _; simp only [run, throwObj, eval, Agrees]; split <;> simp_all
-  | throwBad e => intro x s _ _ _ hd _; simp [inDomain] at hd
-  | rethrow => intro x s h _ _ _ _; simp only [run, throwObj, eval, Agrees]; split <;> simp_all
-  | call p ih =>
-    intro x s h hn hx hd hf
-    simpa [run, eval] using ih x s h (by simpa [nest] using hn) hx (by simpa [inDomain] using hd)
-      (by simpa [nodupFilters] using hf)
-  | seq p q ihp ihq =>
-    intro x s h hn hx hd hf
-    simp only [inDomain, Bool.and_eq_true] at hd
-    simp only [nodupFilters, Bool.and_eq_true] at hf
-    have hnp : s.depth + nest p ≤ maxDepth := by simp only [nest] at hn; omega
-    have hnq : s.depth + nest q ≤ maxDepth := by simp only [nest] at hn; omega
-    have hp := ihp x s h hnp hx hd.1 hf.1
-    simp only [run, eval]
-    rcases hev : eval p x with ⟨t1, _ | e⟩
-    · rw [hev] at hp; simp only [Agrees] at hp
-      obtain ⟨h1, h2, h3, h4⟩ := hp
-      rcases hr : run true maxDepth p x s with ⟨s1, t1', g1⟩
-      rw [hr] at h1 h2 h3 h4; simp only at h1 h2 h3 h4
-      subst h2 h1
-      have hq := ihq x s1 h4 (by omega) hx hd.2 hf.2
-      rcases hev2 : eval q x with ⟨t2, _ | e2⟩ <;> rw [hev2] at hq <;> simp only [Agrees] at hq ⊢ <;>
-        rcases hr2 : run true maxDepth q x s1 with ⟨s2, t2', g2⟩ <;> rw [hr2] at hq <;> simp_all
-    · rw [hev] at hp; simp only [Agrees] at hp
-      obtain ⟨h1, h2, h3, h4⟩ := hp
-      rcases hr : run true maxDepth p x s with ⟨s1, t1', g1⟩
-      rw [hr] at h1 h2 h3 h4; simp only at h1 h2 h3 h4
-      simp only [Agrees]
-      by_cases hd : s.depth ≥ 1 <;> simp_all
-  | tryCatch b f h ihb ihh =>
-    intro x s hs hn hx hd hf
-    simp only [inDomain, Bool.and_eq_true] at hd
-    simp only [nodupFilters, Bool.and_eq_true, decide_eq_true_eq] at hf
-    have hnb : s.depth + 1 + nest b ≤ maxDepth := by simp only [nest] at hn; omega
-    have hnh : s.depth + nest h ≤ maxDepth := by simp only [nest] at hn; omega
-    have hlt : s.depth ≠ maxDepth := by omega
-    simp only [run, eval, hlt, if_false]
-    have hb := ihb x { s with depth := s.depth + 1, active := false } rfl (by simpa using hnb) hx hd.1.1 hf.1.1
-    rcases hev : eval b x with ⟨t, _ | e⟩
-    · -- body completes
-      rw [hev] at hb; simp only [Agrees] at hb
-      rcases hr : run true maxDepth b x { s with depth := s.depth + 1, active := false } with ⟨s2, t', g⟩
-      rw [hr] at hb; simp only at hb
-      obtain ⟨h1, h2, h3, h4⟩ := hb
-      subst h1 h2
-      simp only
-      rw [catchPhase_inactive true _ f s2 t' s.depth h3 h4]
-      simp [Agrees, h4]
-    · -- body raises e: the jump targets exactly this block's buffer
-      have he0 : e ≠ 0 := eval_exc_ne_zero b x e hx hd.1.1 (by rw [hev])
-      rw [hev] at hb; simp only [Agrees] at hb
-      rcases hr : run true maxDepth b x { s with depth := s.depth + 1, active := false } with ⟨s2, t', g⟩
-      rw [hr] at hb; simp only at hb
-      obtain ⟨h1, h2, h3, h4⟩ := hb
-      simp only [Nat.le_add_left, ge_iff_le, if_true, Nat.add_sub_cancel] at h4
-      subst h1 h4 h2
-      simp only [if_true]
-      have ho : ({ s2 with active := true } : St).obj ≠ 0 := he0
-      by_cases hm : fmatch f s2.obj = true
-      · rw [catchPhase_match _ f { s2 with active := true } t' s.depth h3 rfl ho hf.1.2 hm]
-        simp only [hm, if_true]
-        have hh := ihh s2.obj { s2 with active := false, depth := s.depth } rfl (by simpa using hnh) he0 hd.2 hf.2
-        rcases hev2 : eval h s2.obj with ⟨th, _ | e2⟩ <;> rw [hev2] at hh <;> simp only [Agrees] at hh ⊢ <;>
-          rcases hr2 : run true maxDepth h s2.obj { s2 with active := false, depth := s.depth } with ⟨s6, th', g'⟩ <;>
-          rw [hr2] at hh <;> simp_all
-      · have hm' : fmatch f s2.obj = false := by simpa using hm
-        rw [catchPhase_nomatch true _ f { s2 with active := true } t' s.depth h3 rfl ho hf.1.2 hm']
-        simp [Agrees, hm']
+  intro x s ha hn hx hd
+  exact runWith_refines catchDecision maxDepth p x s ha hn hx hd
+    (fun f _ obj hobj => catchDecision_membership f obj hobj)
 
-/-- **C07 for the code as it is in /repo now**: the same statement with the two source-derived parameters
-    (`exception_catch` consumes or not; `EXCEPTION_MAX_DEPTH`) read from the current source by the translator.
-    If the source stops consuming the handled exception this theorem no longer type-checks. -/
+/-- **The repair a0ef2da, as a statement**: `exception_catch` decides every filter by membership of the pending
+    object (empty filter = catch all) — also a filter that names one object twice — and its walk always ends. -/
+theorem C07_filter_is_membership (f : List Nat) (obj : Nat) (hobj : obj ≠ 0) :
+    catchDecision f obj = (if fmatch f obj then .matched else .exhausted) ∧
+    (∀ o, catchDecision f o ≠ .hang) :=
+  ⟨catchDecision_membership f obj hobj, fun o => catchDecision_ne_hang f o⟩
+
+/-- **C07 for the code as it is in /repo now**: the same statement about `runNow`, the machine selected by the three
+    source-derived parameters (`exception_catch` walks its filter with foreach or by index; consumes or not;
+    `EXCEPTION_MAX_DEPTH`) read from the current source by the translator. If the source stops consuming the handled
+    exception, or goes back to the foreach walk, this theorem no longer type-checks. -/
 theorem C07_current_source (p : Prog) (x : Nat) (s : St) (ha : s.active = false)
     (hn : s.depth + nest p ≤ CelloGen.Exn.maxDepth)
-    (hx : x ≠ 0) (hd : inDomain p = true) (hf : nodupFilters p = true) :
-    Agrees s (run CelloGen.Exn.catchConsumes CelloGen.Exn.maxDepth p x s) (eval p x) :=
-  C07_machine_refines_reference CelloGen.Exn.maxDepth p x s ha hn hx hd hf
+    (hx : x ≠ 0) (hd : inDomain p = true) :
+    Agrees s (runNow p x s) (eval p x) :=
+  C07_machine_refines_reference CelloGen.Exn.maxDepth p x s ha hn hx hd
 
 /-- the macros and the statement order the machine was modelled on are those of include/Cello.h and
     src/Exception.c, src/Tuple.c now -/
@@ -131,28 +71,29 @@ theorem C07_macros_as_modelled :
     CelloGen.Exn.catchMacro = CelloGen.Exn.catchMacroModelled ∧
     CelloGen.Exn.throwMacro = CelloGen.Exn.throwMacroModelled ∧
     CelloGen.Exn.throwSetsObjBeforeMessage = true ∧
-    CelloGen.Exn.catchWalksFilterWithForeachEq = true ∧
-    CelloGen.Exn.tupleNextByIdentity = true := ⟨rfl, rfl, rfl, rfl, rfl, rfl⟩
+    CelloGen.Exn.catchWalksFilterWithForeachEq = false ∧
+    CelloGen.Exn.catchWalksFilterByIndex = true ∧
+    CelloGen.Exn.tupleGetByIndex = true := ⟨rfl, rfl, rfl, rfl, rfl, rfl, rfl⟩
 
 /-- **Top level**: from the initial state, a program in the domain whose nesting fits produces exactly the reference
     trace, ends with depth 0, and ends `normal` iff no exception escapes; an escaping exception terminates the program
     (`fatal`) after exactly the reference trace, with the thrown object recorded. -/
 theorem C07_top_level (p : Prog) (x : Nat) (hn : nest p ≤ CelloGen.Exn.maxDepth)
-    (hx : x ≠ 0) (hd : inDomain p = true) (hf : nodupFilters p = true) :
-    let r := run CelloGen.Exn.catchConsumes CelloGen.Exn.maxDepth p x St.init
+    (hx : x ≠ 0) (hd : inDomain p = true) :
+    let r := runNow p x St.init
     r.2.1 = (eval p x).1 ∧ r.1.depth = 0 ∧
       (r.2.2 = .normal ↔ (eval p x).2 = none) ∧ (r.2.2 = .fatal ↔ (eval p x).2 ≠ none) ∧
       (∀ e, (eval p x).2 = some e → r.1.obj = e) := by
-  have h := C07_current_source p x St.init rfl (by simpa [St.init] using hn) hx hd hf
+  have h := C07_current_source p x St.init rfl (by simpa [St.init] using hn) hx hd
   rcases hev : eval p x with ⟨t, _ | e⟩ <;> rw [hev] at h <;> simp_all [Agrees, St.init]
 
 /-- **Depth restored**: after every construct — completed or left by an exception — the nesting depth is what it
     was. -/
 theorem C07_depth_restored (p : Prog) (x : Nat) (s : St) (ha : s.active = false)
     (hn : s.depth + nest p ≤ CelloGen.Exn.maxDepth)
-    (hx : x ≠ 0) (hd : inDomain p = true) (hf : nodupFilters p = true) :
-    (run CelloGen.Exn.catchConsumes CelloGen.Exn.maxDepth p x s).1.depth = s.depth := by
-  have h := C07_current_source p x s ha hn hx hd hf
+    (hx : x ≠ 0) (hd : inDomain p = true) :
+    (runNow p x s).1.depth = s.depth := by
+  have h := C07_current_source p x s ha hn hx hd
   rcases hev : eval p x with ⟨t, _ | e⟩ <;> rw [hev] at h <;> simp_all [Agrees]
 
 /-- **A handled exception never fires again** (machine statement, any body, any outer filter, any start state with
@@ -162,17 +103,17 @@ theorem C07_depth_restored (p : Prog) (x : Nat) (s : St) (ha : s.active = false)
     are, ends normally with nothing pending and the depth restored. -/
 theorem C07_handled_not_refired (b h2 : Prog) (g : List Nat) (x : Nat) (s : St) (ha : s.active = false)
     (hn : s.depth + nest (.tryCatch b g h2) ≤ CelloGen.Exn.maxDepth)
-    (hx : x ≠ 0) (hd : inDomain (.tryCatch b g h2) = true) (hf : nodupFilters (.tryCatch b g h2) = true)
+    (hx : x ≠ 0) (hd : inDomain (.tryCatch b g h2) = true)
     (hb : (eval b x).2 = none) :
-    run CelloGen.Exn.catchConsumes CelloGen.Exn.maxDepth (.tryCatch b g h2) x s
-      = ({ (run CelloGen.Exn.catchConsumes CelloGen.Exn.maxDepth (.tryCatch b g h2) x s).1 with
+    runNow (.tryCatch b g h2) x s
+      = ({ (runNow (.tryCatch b g h2) x s).1 with
             depth := s.depth, active := false }, (eval b x).1, .normal) := by
-  have h := C07_current_source _ x s ha hn hx hd hf
+  have h := C07_current_source _ x s ha hn hx hd
   rcases hev : eval b x with ⟨t, r⟩
   rw [hev] at hb; simp only at hb; subst hb
   simp only [eval, hev, Agrees] at h
   obtain ⟨h1, h2', h3, h4⟩ := h
-  rcases hr : run CelloGen.Exn.catchConsumes CelloGen.Exn.maxDepth (.tryCatch b g h2) x s with ⟨s', t', g'⟩
+  rcases hr : runNow (.tryCatch b g h2) x s with ⟨s', t', g'⟩
   rw [hr] at h1 h2' h3 h4; simp only at h1 h2' h3 h4
   subst h1 h2'
   cases s'; simp_all
@@ -181,9 +122,8 @@ theorem C07_handled_not_refired (b h2 : Prog) (g : List Nat) (x : Nat) (s : St) 
 theorem C07_handled_not_refired_inner (b' h1 h2 : Prog) (f g : List Nat) (e x : Nat) (s : St) (ha : s.active = false)
     (hn : s.depth + nest (.tryCatch (.tryCatch b' f h1) g h2) ≤ CelloGen.Exn.maxDepth)
     (hx : x ≠ 0) (hd : inDomain (.tryCatch (.tryCatch b' f h1) g h2) = true)
-    (hf : nodupFilters (.tryCatch (.tryCatch b' f h1) g h2) = true)
     (hb : (eval b' x).2 = some e) (hm : fmatch f e = true) (hh : (eval h1 e).2 = none) :
-    (run CelloGen.Exn.catchConsumes CelloGen.Exn.maxDepth (.tryCatch (.tryCatch b' f h1) g h2) x s).2
+    (runNow (.tryCatch (.tryCatch b' f h1) g h2) x s).2
       = ((eval b' x).1 ++ [.handler e] ++ (eval h1 e).1, .normal) := by
   have hin : (eval (.tryCatch b' f h1) x) = ((eval b' x).1 ++ [.handler e] ++ (eval h1 e).1, none) := by
     rcases hev : eval b' x with ⟨t, r⟩
@@ -191,7 +131,7 @@ theorem C07_handled_not_refired_inner (b' h1 h2 : Prog) (f g : List Nat) (e x : 
     rcases hev2 : eval h1 e with ⟨th, r2⟩
     rw [hev2] at hh; simp only at hh; subst hh
     simp [eval, hev, hm, hev2]
-  have := C07_handled_not_refired (.tryCatch b' f h1) h2 g x s ha hn hx hd hf (by rw [hin])
+  have := C07_handled_not_refired (.tryCatch b' f h1) h2 g x s ha hn hx hd (by rw [hin])
   rw [this, hin]
 
 /-- **Sequences are independent** (machine statement): when `p` completes, the machine's trace of `p; q` is its trace
@@ -199,18 +139,17 @@ theorem C07_handled_not_refired_inner (b' h1 h2 : Prog) (f g : List Nat) (e x : 
     included) leaves nothing behind that `q` can observe — and `p; q` ends as `q` alone ends. -/
 theorem C07_sequence (p q : Prog) (x : Nat) (s : St) (ha : s.active = false)
     (hn : s.depth + nest (.seq p q) ≤ CelloGen.Exn.maxDepth)
-    (hx : x ≠ 0) (hd : inDomain (.seq p q) = true) (hf : nodupFilters (.seq p q) = true)
+    (hx : x ≠ 0) (hd : inDomain (.seq p q) = true)
     (hp : (eval p x).2 = none) :
-    let M := run CelloGen.Exn.catchConsumes CelloGen.Exn.maxDepth
+    let M := runNow
     (M (.seq p q) x s).2.1 = (M p x s).2.1 ++ (M q x s).2.1 ∧ (M (.seq p q) x s).2.2 = (M q x s).2.2 := by
-  have hd' := hd; have hf' := hf
+  have hd' := hd
   simp only [inDomain, Bool.and_eq_true] at hd'
-  simp only [nodupFilters, Bool.and_eq_true] at hf'
   have hnp : s.depth + nest p ≤ CelloGen.Exn.maxDepth := by simp only [nest] at hn; omega
   have hnq : s.depth + nest q ≤ CelloGen.Exn.maxDepth := by simp only [nest] at hn; omega
-  have h1 := C07_current_source _ x s ha hn hx hd hf
-  have h2 := C07_current_source p x s ha hnp hx hd'.1 hf'.1
-  have h3 := C07_current_source q x s ha hnq hx hd'.2 hf'.2
+  have h1 := C07_current_source _ x s ha hn hx hd
+  have h2 := C07_current_source p x s ha hnp hx hd'.1
+  have h3 := C07_current_source q x s ha hnq hx hd'.2
   rcases hevp : eval p x with ⟨tp, rp⟩
   rw [hevp] at hp; simp only at hp; subst hp
   rcases hevq : eval q x with ⟨tq, _ | e⟩ <;>
@@ -221,131 +160,62 @@ theorem C07_sequence (p q : Prog) (x : Nat) (s : St) (ha : s.active = false)
     state*, the history ends normally, with the depth restored and nothing pending. -/
 theorem C07_sequence_history (ps : List Prog) (x : Nat) (hx : x ≠ 0) :
     ∀ (s : St), s.active = false →
-      (∀ p ∈ ps, s.depth + nest p ≤ CelloGen.Exn.maxDepth ∧ inDomain p = true ∧ nodupFilters p = true ∧
-        (eval p x).2 = none) →
-      let M := run CelloGen.Exn.catchConsumes CelloGen.Exn.maxDepth
-      let r := runSeq CelloGen.Exn.catchConsumes CelloGen.Exn.maxDepth ps x s
+      (∀ p ∈ ps, s.depth + nest p ≤ CelloGen.Exn.maxDepth ∧ inDomain p = true ∧ (eval p x).2 = none) →
+      let M := runNow
+      let r := runSeq runNow ps x s
       r.2.1 = (ps.map (fun p => (M p x s).2.1)).flatten ∧ r.2.2 = .normal ∧
         r.1.depth = s.depth ∧ r.1.active = false := by
   induction ps with
   | nil => intro s ha _; simp [runSeq, ha]
   | cons p ps ih =>
     intro s ha hall
-    obtain ⟨hn, hd, hf, hp⟩ := hall p (by simp)
-    have h1 := C07_current_source p x s ha hn hx hd hf
+    obtain ⟨hn, hd, hp⟩ := hall p (by simp)
+    have h1 := C07_current_source p x s ha hn hx hd
     rcases hevp : eval p x with ⟨tp, rp⟩
     rw [hevp] at hp; simp only at hp; subst hp
     rw [hevp] at h1; simp only [Agrees] at h1
     obtain ⟨a1, a2, a3, a4⟩ := h1
-    rcases hr : run CelloGen.Exn.catchConsumes CelloGen.Exn.maxDepth p x s with ⟨s1, t1, g1⟩
+    rcases hr : runNow p x s with ⟨s1, t1, g1⟩
     rw [hr] at a1 a2 a3 a4; simp only at a1 a2 a3 a4
     subst a1 a2
     have hall' : ∀ q ∈ ps, s1.depth + nest q ≤ CelloGen.Exn.maxDepth ∧ inDomain q = true ∧
-        nodupFilters q = true ∧ (eval q x).2 = none := by
+        (eval q x).2 = none := by
       intro q hq; have := hall q (by simp [hq]); rw [a3]; exact this
     have ih' := ih s1 a4 hall'
     simp only at ih'
     obtain ⟨b1, b2, b3, b4⟩ := ih'
     -- each later construct alone from s1 produces what it produces alone from s
-    have hsame : ∀ q ∈ ps, (run CelloGen.Exn.catchConsumes CelloGen.Exn.maxDepth q x s1).2.1
-        = (run CelloGen.Exn.catchConsumes CelloGen.Exn.maxDepth q x s).2.1 := by
+    have hsame : ∀ q ∈ ps, (runNow q x s1).2.1
+        = (runNow q x s).2.1 := by
       intro q hq
-      obtain ⟨qn, qd, qf, qe⟩ := hall q (by simp [hq])
-      have e1 := C07_current_source q x s ha qn hx qd qf
-      have e2 := C07_current_source q x s1 a4 (by rw [a3]; exact qn) hx qd qf
+      obtain ⟨qn, qd, qe⟩ := hall q (by simp [hq])
+      have e1 := C07_current_source q x s ha qn hx qd
+      have e2 := C07_current_source q x s1 a4 (by rw [a3]; exact qn) hx qd
       rcases hevq : eval q x with ⟨tq, rq⟩
       rw [hevq] at qe; simp only at qe; subst qe
       rw [hevq] at e1 e2; simp only [Agrees] at e1 e2
       rw [e1.1, e2.1]
-    have hmap : ps.map (fun q => (run CelloGen.Exn.catchConsumes CelloGen.Exn.maxDepth q x s1).2.1)
-        = ps.map (fun q => (run CelloGen.Exn.catchConsumes CelloGen.Exn.maxDepth q x s).2.1) :=
+    have hmap : ps.map (fun q => (runNow q x s1).2.1)
+        = ps.map (fun q => (runNow q x s).2.1) :=
       List.map_congr_left hsame
     simp only [runSeq, hr]
-    rcases hrs : runSeq CelloGen.Exn.catchConsumes CelloGen.Exn.maxDepth ps x s1 with ⟨s2, t2, g2⟩
+    rcases hrs : runSeq runNow ps x s1 with ⟨s2, t2, g2⟩
     rw [hrs] at b1 b2 b3 b4; simp only at b1 b2 b3 b4
     simp [hr, b1, b2, b3, b4, a3, hmap]
 
-/-- **No undefined jump, whatever the program**: with no hypothesis on nesting depth, object domain or filters, from
-    any state with nothing pending, a construct ends in one of: `normal` (depth restored, nothing pending), a jump to
-    exactly the innermost enclosing live buffer (depth restored), `fatal` only at depth 0, `abort` (buffer overflow),
-    `hang` (filter walk) — never a `longjmp` into a block that has been left, never a buffer underflow. -/
-def Safe (s : St) (r : St × List Ev × Sig) : Prop :=
-  match r.2.2 with
-  | .normal => r.1.depth = s.depth ∧ r.1.active = false
-  | .jump t => 1 ≤ s.depth ∧ t = s.depth - 1 ∧ r.1.depth = s.depth
-  | .fatal => s.depth = 0
-  | .abort => True
-  | .hang => True
-  | .ub => False
-
+/-- **No undefined jump and no hang, whatever the program**: with no hypothesis on nesting depth, object domain or
+    filters, from any state with nothing pending, a construct ends in one of: `normal` (depth restored, nothing
+    pending), a jump to exactly the innermost enclosing live buffer (depth restored), `fatal` only at depth 0, `abort`
+    (buffer overflow) — never a `longjmp` into a block that has been left, never a buffer underflow, and (since fix
+    a0ef2da) never a filter walk that does not return (`Safe`, CelloProofs/Lemmas/ExnRefine.lean: `.hang => False`). -/
 theorem C07_no_undefined_jump (maxDepth : Nat) (p : Prog) :
-    ∀ (x : Nat) (s : St), s.active = false → Safe s (run true maxDepth p x s) := by
-  induction p with
-  | stmt t => intro x s h; simp [run, Safe, h]
-  | throw e => intro x s h; simp only [run, throwObj]; split <;> simp_all [Safe] <;> omega
-  | throwBad e => intro x s h; simp only [run, throwObj]; split <;> simp_all [Safe] <;> omega
-  | rethrow => intro x s h; simp only [run, throwObj]; split <;> simp_all [Safe] <;> omega
-  | call p ih => intro x s h; simpa [run] using ih x s h
-  | seq p q ihp ihq =>
-    intro x s h
-    have hp := ihp x s h
-    simp only [run]
-    rcases hr : run true maxDepth p x s with ⟨s1, t1, g1⟩
-    rw [hr] at hp
-    cases g1 with
-    | normal =>
-      simp only [Safe] at hp
-      have hq := ihq x s1 hp.2
-      rcases hr2 : run true maxDepth q x s1 with ⟨s2, t2, g2⟩
-      rw [hr2] at hq
-      cases g2 <;> simp_all [Safe]
-    | _ => simp_all [Safe]
-  | tryCatch b f h ihb ihh =>
-    intro x s hs
-    simp only [run]
-    by_cases hlt : s.depth = maxDepth
-    · simp [hlt, Safe]
-    · simp only [hlt, if_false]
-      have hb := ihb x { s with depth := s.depth + 1, active := false } rfl
-      rcases hr : run true maxDepth b x { s with depth := s.depth + 1, active := false } with ⟨s2, t, g⟩
-      rw [hr] at hb
-      -- what catchPhase does from a state one level in, pending or not
-      have key : ∀ s3 : St, s3.depth = s.depth + 1 →
-          Safe s (catchPhase true (run true maxDepth h) f s3 t) := by
-        intro s3 hd3
-        simp only [catchPhase, hd3, Nat.add_one_ne_zero, if_false, Nat.add_sub_cancel]
-        cases hact : s3.active with
-        | false => simp [Safe]
-        | true =>
-          simp only [Bool.not_true, Bool.false_eq_true, if_false]
-          cases catchDecision f s3.obj with
-          | matched =>
-            simp only [if_true]
-            by_cases ho : s3.obj = 0
-            · simp [ho, Safe]
-            · simp only [ho, if_false]
-              have hh := ihh s3.obj { depth := s.depth, active := false, obj := s3.obj } rfl
-              rcases hr3 : run true maxDepth h s3.obj { depth := s.depth, active := false, obj := s3.obj } with ⟨s6, th, g6⟩
-              rw [hr3] at hh
-              cases g6 <;> simp_all [Safe]
-          | exhausted =>
-            by_cases hd : s.depth ≥ 1 <;> simp [hd, Safe] <;> omega
-          | hang => simp [Safe]
-          | nullCmp =>
-            by_cases hd : s.depth ≥ 1 <;> simp [hd, Safe] <;> omega
-      cases g with
-      | normal => simp only [Safe] at hb; exact key s2 hb.1
-      | jump tgt =>
-        simp only [Safe] at hb
-        obtain ⟨_, ht, hd2⟩ := hb
-        have : tgt = s.depth := by simpa using ht
-        subst this
-        simp only [if_true]
-        exact key { s2 with active := true } hd2
-      | fatal => simp [Safe] at hb
-      | abort => simp [Safe]
-      | hang => simp [Safe]
-      | ub => simp [Safe] at hb
+    ∀ (x : Nat) (s : St), s.active = false → Safe s (run true maxDepth p x s) :=
+  runWith_safe catchDecision catchDecision_ne_hang maxDepth p
+
+/-- … for the code as it is now -/
+theorem C07_no_undefined_jump_current_source (p : Prog) (x : Nat) (s : St) (ha : s.active = false) :
+    Safe s (runNow p x s) :=
+  C07_no_undefined_jump CelloGen.Exn.maxDepth p x s ha
 
 /-- **Overflow of the jump-buffer array**: `exception_try` at depth `EXCEPTION_MAX_DEPTH` prints "Exception Buffer
     Overflow" and calls `abort()` before touching the record. A tower of try blocks that does not fit aborts at the
@@ -359,12 +229,12 @@ theorem C07_overflow_aborts (maxDepth : Nat) (c : Bool) (p : Prog) (x : Nat) :
   | zero => intro s h1 h2; omega
   | succ n ih =>
     intro s h1 h2
-    simp only [tower, run]
+    simp only [tower, run, runWith] at ih ⊢
     by_cases hlt : s.depth = maxDepth
     · simp [hlt]
     · simp only [hlt, if_false]
       have := ih { s with depth := s.depth + 1, active := false } (by simp; omega) (by simp; omega)
-      rcases hr : run c maxDepth (tower n p) x { s with depth := s.depth + 1, active := false } with ⟨s2, t, g⟩
+      rcases hr : runWith catchDecision c maxDepth (tower n p) x { s with depth := s.depth + 1, active := false } with ⟨s2, t, g⟩
       rw [hr] at this; simp only [Prod.mk.injEq] at this
       obtain ⟨rfl, rfl⟩ := this
       rfl
@@ -372,7 +242,7 @@ theorem C07_overflow_aborts (maxDepth : Nat) (c : Bool) (p : Prog) (x : Nat) :
 /-- … and every tower that fits — up to exactly `EXCEPTION_MAX_DEPTH` blocks (`n = maxDepth`) — still behaves by the
     reference (instance of the core theorem at the boundary). -/
 theorem C07_full_depth_ok (e : Nat) (he : e ≠ 0) (n : Nat) (hle : n ≤ CelloGen.Exn.maxDepth) :
-    Agrees St.init (run CelloGen.Exn.catchConsumes CelloGen.Exn.maxDepth (tower n (.throw e)) 1 St.init)
+    Agrees St.init (runNow (tower n (.throw e)) 1 St.init)
       (eval (tower n (.throw e)) 1) := by
   have hn : ∀ n, nest (tower n (.throw e)) = n := by
     intro n; induction n with
@@ -382,52 +252,84 @@ theorem C07_full_depth_ok (e : Nat) (he : e ≠ 0) (n : Nat) (hle : n ≤ CelloG
     intro n; induction n with
     | zero => simpa [tower, inDomain] using he
     | succ n ih => simp [tower, inDomain, ih]
-  have hf : ∀ n, nodupFilters (tower n (.throw e)) = true := by
-    intro n; induction n with
-    | zero => simp [tower, nodupFilters]
-    | succ n ih => simp [tower, nodupFilters, ih]
   have h0 : St.init.depth = 0 := rfl
-  exact C07_current_source (tower n (.throw e)) 1 St.init rfl (by rw [hn, h0]; omega) (by decide) (hd n) (hf n)
+  exact C07_current_source (tower n (.throw e)) 1 St.init rfl (by rw [hn, h0]; omega) (by decide) (hd n)
 
 /-! ### outside the domain: what the code does instead (each on a concrete witness; the model mirrors the code) -/
 
-/-- **KF-C07-filter-dup (refuted without `nodupFilters`).** `try { throw(ValueError) } catch (e in TypeError, TypeError)
-    { … }`: the reference lets the exception escape (uncaught → failure status); the machine never leaves
-    `exception_catch` — `Tuple_Iter_Next` finds the current item by identity, so the successor of the first
-    `TypeError` is the second, whose successor is again the second. The hang is not an artefact of the fuel: the walk
-    is `hang` for every fuel. -/
-theorem C07_duplicate_filter_refuted :
+/-! #### the OLD machine (`runOld`: foreach walk of the code before fix a0ef2da) — former finding KF-C07-filter-dup -/
+
+/-- **The foreach walk refuted (was KF-C07-filter-dup), and the same witness on the code as it is now.**
+    `try { throw(ValueError) } catch (e in TypeError, TypeError) { … }`: the reference lets the exception escape
+    (uncaught → failure status). The OLD machine never left `exception_catch` — `Tuple_Iter_Next` finds the current
+    item by identity, so the successor of the first `TypeError` is the second, whose successor is again the second; the
+    hang is not an artefact of the fuel: the walk is `hang` for every fuel. The current machine (`runNow`, walk by
+    index) does what the reference says: nothing runs, the program ends `fatal` with ValueError recorded. -/
+theorem C07_foreach_walk_refuted :
     let bad : Prog := .tryCatch (.throw 2) [1, 1] (.stmt 1)
     nodupFilters bad = false ∧ inDomain bad = true ∧
     eval bad 1 = ([], some 2) ∧
-    run CelloGen.Exn.catchConsumes CelloGen.Exn.maxDepth bad 1 St.init = (⟨0, true, 2⟩, [], .hang) ∧
-    (∀ fuel, walkFrom [1, 1] 2 fuel (some 1) = .hang) := by
-  refine ⟨by decide, by decide, by decide, by decide, ?_⟩
+    runOld CelloGen.Exn.catchConsumes CelloGen.Exn.maxDepth bad 1 St.init = (⟨0, true, 2⟩, [], .hang) ∧
+    (∀ fuel, walkFrom [1, 1] 2 fuel (some 1) = .hang) ∧
+    runNow bad 1 St.init = (⟨0, true, 2⟩, [], .fatal) := by
+  refine ⟨by decide, by decide, by decide, by decide, ?_, by decide⟩
   intro fuel
   exact walkFrom_dup_hangs [1, 1] 2 (by decide) (by decide) (by decide) fuel
 
-/-- … and in general: *every* try block whose filter repeats an object hangs on *every* exception (of the domain)
-    that the filter does not list — in place of "continues to the nearest enclosing matching handler". -/
-theorem C07_duplicate_filter_hangs (maxDepth : Nat) (b h : Prog) (f : List Nat) (x e : Nat) (s : St)
+/-- the OLD machine did behave by the reference on programs whose filters are duplicate-free (the former statement
+    of `C07_machine_refines_reference`, with its hypothesis `nodupFilters`) … -/
+theorem C07_foreach_walk_refines_nodup (maxDepth : Nat) (p : Prog) :
+    ∀ (x : Nat) (s : St), s.active = false → s.depth + nest p ≤ maxDepth →
+      x ≠ 0 → inDomain p = true → nodupFilters p = true →
+      Agrees s (runOld true maxDepth p x s) (eval p x) := by
+  intro x s ha hn hx hd hf
+  exact runWith_refines catchDecisionOld maxDepth p x s ha hn hx hd
+    (fun f hmem obj hobj => catchDecisionOld_nodup f obj hobj (nodupFilters_filtersOf p hf f hmem))
+
+/-- … and in general: on the OLD machine *every* try block whose filter repeats an object hung on *every* exception
+    (of the domain) that the filter does not list — in place of "continues to the nearest enclosing matching
+    handler". -/
+theorem C07_foreach_walk_hangs (maxDepth : Nat) (b h : Prog) (f : List Nat) (x e : Nat) (s : St)
     (hn : s.depth + nest b + 1 ≤ maxDepth)
     (hx : x ≠ 0) (hd : inDomain b = true) (hf : nodupFilters b = true)
     (hb : (eval b x).2 = some e) (hdup : ¬ f.Nodup) (hnot : e ∉ f) :
-    (run true maxDepth (.tryCatch b f h) x s).2 = ((eval b x).1, .hang) := by
+    (runOld true maxDepth (.tryCatch b f h) x s).2 = ((eval b x).1, .hang) := by
   have hlt : s.depth ≠ maxDepth := by omega
   have he0 : e ≠ 0 := eval_exc_ne_zero b x e hx hd hb
-  have hb' := C07_machine_refines_reference maxDepth b x { s with depth := s.depth + 1, active := false } rfl
+  have hb' := C07_foreach_walk_refines_nodup maxDepth b x { s with depth := s.depth + 1, active := false } rfl
     (by simp; omega) hx hd hf
   rcases hev : eval b x with ⟨t, r⟩
   rw [hev] at hb; simp only at hb; subst hb
   rw [hev] at hb'; simp only [Agrees] at hb'
-  simp only [run, hlt, if_false]
-  rcases hr : run true maxDepth b x { s with depth := s.depth + 1, active := false } with ⟨s2, t', g⟩
+  simp only [runOld, runWith, hlt, if_false] at hb' ⊢
+  rcases hr : runWith catchDecisionOld true maxDepth b x { s with depth := s.depth + 1, active := false } with ⟨s2, t', g⟩
   rw [hr] at hb'; simp only at hb'
   obtain ⟨h1, h2, h3, h4⟩ := hb'
   simp only [Nat.le_add_left, ge_iff_le, if_true, Nat.add_sub_cancel] at h4
   subst h1 h4 h2
   simp only [if_true]
-  rw [catchPhase_dup_hangs true _ f { s2 with active := true } t' s.depth h3 rfl he0 hdup hnot]
+  rw [catchPhase_hangs catchDecisionOld true _ f { s2 with active := true } t' s.depth h3 rfl
+    (catchDecisionOld_dup_hangs f s2.obj he0 hdup hnot)]
+
+/-- … where the machine of the current code, in the same situation, passes the exception on to the enclosing block
+    after exactly the body's events (instance of the core theorem; `f` is any list). -/
+theorem C07_repeated_filter_object_passes_on (maxDepth : Nat) (b h : Prog) (f : List Nat) (x e : Nat) (s : St)
+    (ha : s.active = false) (hn : s.depth + nest (.tryCatch b f h) ≤ maxDepth)
+    (hx : x ≠ 0) (hd : inDomain (.tryCatch b f h) = true)
+    (hb : (eval b x).2 = some e) (hnot : e ∉ f) (hne : f ≠ []) :
+    (run true maxDepth (.tryCatch b f h) x s).2
+      = ((eval b x).1, if s.depth ≥ 1 then .jump (s.depth - 1) else .fatal) := by
+  have h0 := C07_machine_refines_reference maxDepth (.tryCatch b f h) x s ha hn hx hd
+  have hm : fmatch f e = false := by
+    cases f with
+    | nil => exact absurd rfl hne
+    | cons a r => simpa [fmatch] using hnot
+  rcases hev : eval b x with ⟨t, r⟩
+  rw [hev] at hb; simp only at hb; subst hb
+  simp only [eval, hev, hm, Agrees] at h0
+  rcases hr : run true maxDepth (.tryCatch b f h) x s with ⟨s', t', g'⟩
+  rw [hr] at h0
+  simp_all
 
 /-- **throw(NULL, …) (refuted outside `inDomain`).** `try { throw(NULL) } catch (e) { H }`: the reference runs `H`
     ("an empty filter matches everything"); the machine consumes the exception and skips the handler — the catch-all
@@ -438,9 +340,9 @@ theorem C07_throw_null_refuted :
     let bad2 : Prog := .tryCatch (.tryCatch (.throw 0) [1] (.stmt 1)) [] (.stmt 2)
     inDomain bad = false ∧
     eval bad 1 = ([.handler 0, .stmt 1], none) ∧
-    run CelloGen.Exn.catchConsumes CelloGen.Exn.maxDepth bad 1 St.init = (⟨0, false, 0⟩, [], .normal) ∧
+    runNow bad 1 St.init = (⟨0, false, 0⟩, [], .normal) ∧
     eval bad2 1 = ([.handler 0, .stmt 2], none) ∧
-    run CelloGen.Exn.catchConsumes CelloGen.Exn.maxDepth bad2 1 St.init
+    runNow bad2 1 St.init
       = (⟨0, false, valueErr⟩, [.handler valueErr, .stmt 2], .normal) := by decide
 
 /-- **A message format with too few arguments (refuted outside `inDomain`).** `try { throw(TypeError, "%i") } catch (e)
@@ -451,29 +353,29 @@ theorem C07_bad_message_refuted :
     let bad : Prog := .tryCatch (.throwBad 1) [] (.stmt 1)
     inDomain bad = false ∧
     eval bad 1 = ([.handler 1, .stmt 1], none) ∧
-    run CelloGen.Exn.catchConsumes CelloGen.Exn.maxDepth bad 1 St.init
+    runNow bad 1 St.init
       = (⟨0, false, fmtErr⟩, [.handler fmtErr, .stmt 1], .normal) := by decide
 
 /-- … exactly: for the machine a `throw` with a malformed message *is* a `throw` of FormatError, in every program and
     every state; so block structure holds for such programs with FormatError in place of the named object. -/
 theorem C07_bad_message_as_format_error (p : Prog) (x : Nat) (s : St) (ha : s.active = false)
     (hn : s.depth + nest p ≤ CelloGen.Exn.maxDepth)
-    (hx : x ≠ 0) (hd : inDomain (normalizeMsg p) = true) (hf : nodupFilters p = true) :
-    Agrees s (run CelloGen.Exn.catchConsumes CelloGen.Exn.maxDepth p x s) (eval (normalizeMsg p) x) := by
+    (hx : x ≠ 0) (hd : inDomain (normalizeMsg p) = true) :
+    Agrees s (runNow p x s) (eval (normalizeMsg p) x) := by
   have := C07_current_source (normalizeMsg p) x s ha (by rw [nest_normalizeMsg]; exact hn) hx hd
-    (by rw [nodupFilters_normalizeMsg]; exact hf)
-  rwa [run_normalizeMsg_eq] at this
+  have he : runNow (normalizeMsg p) x s = runNow p x s := run_normalizeMsg_eq _ _ p x s
+  rwa [he] at this
 
-/-- Non-vacuity: a concrete nested program — throw from a called function, a handler that rethrows the bound object
-    after an inner block overwrote the record's object, a throw from a handler, a second construct afterwards — meets
-    every hypothesis (and the machine really runs handlers). -/
+/-- Non-vacuity: a concrete nested program — throw from a called function, filters that name objects repeatedly, a
+    handler that rethrows the bound object after an inner block overwrote the record's object, a throw from a handler,
+    a second construct afterwards — meets every hypothesis (and the machine really runs handlers). -/
 example :
     let p : Prog := .seq
-      (.tryCatch (.seq (.stmt 1) (.tryCatch (.call (.throw 2)) [3, 2]
-          (.seq (.tryCatch (.throw 4) [] (.stmt 8)) .rethrow))) [2, 4] (.seq (.stmt 5) (.throw 6)))
+      (.tryCatch (.seq (.stmt 1) (.tryCatch (.call (.throw 2)) [3, 3, 2, 3]
+          (.seq (.tryCatch (.throw 4) [] (.stmt 8)) .rethrow))) [2, 4, 2] (.seq (.stmt 5) (.throw 6)))
       (.stmt 9)
-    nest p ≤ CelloGen.Exn.maxDepth ∧ St.init.active = false ∧ inDomain p = true ∧ nodupFilters p = true ∧
-    run CelloGen.Exn.catchConsumes CelloGen.Exn.maxDepth p 1 St.init
+    nest p ≤ CelloGen.Exn.maxDepth ∧ St.init.active = false ∧ inDomain p = true ∧ nodupFilters p = false ∧
+    runNow p 1 St.init
       = (⟨0, false, 6⟩, [.stmt 1, .handler 2, .handler 4, .stmt 8, .handler 2, .stmt 5], .fatal) ∧
     eval p 1 = ([.stmt 1, .handler 2, .handler 4, .stmt 8, .handler 2, .stmt 5], some 6) := by decide
 
@@ -482,13 +384,14 @@ example :
     let c1 : Prog := .tryCatch (.tryCatch (.throw 1) [1] (.stmt 7)) [] (.stmt 9)
     let c2 : Prog := .tryCatch (.call (.throw 3)) [] .rethrow
     (eval c1 1).2 = none ∧ (eval (.tryCatch c2 [3] (.stmt 4)) 1).2 = none ∧
-    (runSeq CelloGen.Exn.catchConsumes CelloGen.Exn.maxDepth [c1, .tryCatch c2 [3] (.stmt 4), c1] 1 St.init).2
+    (runSeq runNow [c1, .tryCatch c2 [3] (.stmt 4), c1] 1 St.init).2
       = ([.handler 1, .stmt 7, .handler 3, .handler 3, .stmt 4, .handler 1, .stmt 7], .normal) := by decide
 
 /-- The un-repaired `exception_catch` (does not consume) is refuted by a concrete program: the outer handler fires
     for an exception the inner block already handled (this was defect F01, fixed in /repo). -/
 theorem C07_nonconsuming_refuted :
     let bad : Prog := .tryCatch (.tryCatch (.throw 1) [1] (.stmt 7)) [] (.stmt 9)
-    (run false 2048 bad 1 St.init).2.1 ≠ (eval bad 1).1 := by decide
+    (run false 2048 bad 1 St.init).2.1 ≠ (eval bad 1).1 ∧
+    (runNow bad 1 St.init).2.1 = (eval bad 1).1 := by decide
 
 end Cello.Exn
